@@ -122,7 +122,7 @@ fixed("FX12-nested-extension-redirect-chain", ["C29"], "b16d578", "a second-leve
 known("KF15-findall-order-follows-tabled-evaluation", ["C13", "C19"],
       "the list built by findall/3 has Prolog's elements but not always Prolog's SLD order: answers of a called predicate are tabled (identical answers of different clauses are merged, results are grouped per answer) and results of clause nodes (non-ground facts, rules) and fact nodes of one predicate are delivered in different phases",
       "p(_,1). p(a,2). p(b,3). p(_,4). p(a,0). w(L) :- findall(N, p(a,N), L).  gives [1,4,2,0], Prolog gives [1,2,4,0]",
-      match={"clause": "findall-order", "mode": "seq"})
+      match_any=[{"clause": "findall-order", "mode": "seq"}, {"clause": "findall-duplicates-merged", "mode": "seq"}])
 known("KF3b-toplevel-repeated-variable-query-deterministic", ["C13"],
       "same defect as KF3 on deterministic programs: engine.query(db, p(X,X)) returns answers that are not instances of the query",
       "p(2,Y). ?- p(X,X).  returns p(2,_) instead of p(2,2)",
